@@ -70,3 +70,45 @@ class patched:
             else:
                 setattr(obj, name, val)
         return False
+
+
+def blank_seq(n):
+    """A sequence of length n whose content is irrelevant (ORF / coordinate harnesses).
+    Under the shim: a length-only Seq (no per-base work, so symbolic lengths do not fork);
+    on replay: a real Seq of n 'A's."""
+    from Bio.Seq import Seq
+    if not under_shim():
+        return Seq('A' * n)
+
+    class BlankSeq(Seq):
+        def __init__(self, length):
+            self._n = length
+            self._p = None
+
+        def __len__(self):
+            return self._n
+
+        def __getitem__(self, index):
+            if isinstance(index, slice):
+                a = 0 if index.start is None else index.start
+                b = self._n if index.stop is None else index.stop
+                if a < 0 or b < 0 or (index.step not in (None, 1)):
+                    raise NotImplementedError('BlankSeq: only forward non-negative slices')
+                lo = a if a < self._n else self._n
+                hi = b if b < self._n else self._n
+                return BlankSeq(hi - lo if hi > lo else 0)
+            return 'A'
+
+        def __add__(self, other):
+            return BlankSeq(self._n + len(other))
+
+        def __radd__(self, other):
+            return BlankSeq(self._n + len(other))
+
+        def reverse_complement(self, inplace=False):
+            return BlankSeq(self._n)
+
+        def __str__(self):
+            raise NotImplementedError('BlankSeq has no content')
+
+    return BlankSeq(n)
